@@ -786,6 +786,84 @@ class Top(cohdl.Entity):
             self.w <<= var_two
 ''', tags=["sequential", "variable", "alias_unnamed"], W=[4, 3])
 
+# ---- bound methods / callable objects handed directly to cohdl.*_context (helper class with per-instance
+#      signals; two instances in one design, the same class used by a second top of the module)
+_d("bound_method_contexts", '''
+class Stage:
+    def __init__(self, inp, outp, name):
+        self.inp = inp
+        self.outp = outp
+        self.reg = Signal[BitVector[@W@]](Null, name=name)
+
+    def comb(self):
+        self.outp <<= self.reg
+
+    def __call__(self):
+        self.reg <<= self.inp
+
+
+class Top(cohdl.Entity):
+    a = Port.input(BitVector[@W@])
+    b = Port.input(BitVector[@W@])
+    x = Port.output(BitVector[@W@])
+    y = Port.output(BitVector[@W@])
+
+    def architecture(self):
+        for inp, outp, name in ((self.a, self.x, "reg_a"), (self.b, self.y, "reg_b")):
+            st = Stage(inp, outp, name)
+            cohdl.concurrent_context(st.comb, name="comb_" + name)
+            cohdl.concurrent_context(st.__call__, name="call_" + name)
+
+
+class Top2(cohdl.Entity):
+    clk = Port.input(Bit)
+    c = Port.input(BitVector[@W@])
+    z = Port.output(BitVector[@W@])
+
+    def architecture(self):
+        st = Stage(self.c, self.z, "reg_c@N@")
+        cohdl.concurrent_context(st.comb, name="comb_c")
+
+        @std.sequential(std.Clock(self.clk))
+        def proc():
+            st()
+''', tops={"Top": "valid", "Top2": "valid"}, tags=["concurrent", "bound_method", "shared_classes"], W=[4, 2],
+   N=["", "_n"])
+
+# ---- ports added while the architecture runs (board definition pattern), compiled alone and as a sub-entity
+_d("dynamic_ports", '''
+class Board(cohdl.Entity):
+    clk = Port.input(Bit)
+    sel = Port.input(Bit)
+
+    def architecture(self):
+        led = std.add_entity_port(self, Port.output(BitVector[@W@], name="led@N@"))
+        btn = std.add_entity_port(type(self), Port.input(BitVector[@W@]), name="btn")
+
+        @std.sequential(std.Clock(self.clk))
+        def proc():
+            if self.sel:
+                led.next = btn
+            else:
+                led.next = ~btn
+
+
+class Top(cohdl.Entity):
+    clk = Port.input(Bit)
+    sel = Port.input(Bit)
+    buttons = Port.input(BitVector[@W@])
+    leds = Port.output(BitVector[@W@])
+    y = Port.output(Bit)
+
+    def architecture(self):
+        Board(clk=self.clk, sel=self.sel, led@N@=self.leds, btn=self.buttons)
+
+        @std.concurrent
+        def logic():
+            self.y <<= self.sel
+''', tops={"Board": "valid", "Top": "valid"}, tags=["dynamic_ports", "subentity", "shared_classes"], W=[4, 3],
+   N=["", "_x"])
+
 # ---- modules with several tops that share classes (valid + valid, valid + rejected)
 _d("shared_sub_two_tops", '''
 class Stage(cohdl.Entity):
